@@ -17,11 +17,14 @@ import (
 	"strings"
 	"sync"
 
+	"github.com/trustbloc/sidetree-go/pkg/api/protocol"
 	"github.com/trustbloc/sidetree-go/pkg/commitment"
+	"github.com/trustbloc/sidetree-go/pkg/document"
 	"github.com/trustbloc/sidetree-go/pkg/jws"
 	"github.com/trustbloc/sidetree-go/pkg/jwsutil"
 	"github.com/trustbloc/sidetree-go/pkg/util/pubkey"
 	"github.com/trustbloc/sidetree-go/pkg/util/signutil"
+	"github.com/trustbloc/sidetree-go/pkg/versions/1_0/doctransformer/didtransformer"
 )
 
 type jwsCaseIn struct {
@@ -352,6 +355,12 @@ func tamperings(pool *KeyPool, k *Key, good string, tamper string) (out []struct
 	}
 
 	return out
+}
+
+func raw0(j *jws.JWK) []byte {
+	b, _ := json.Marshal(j)
+
+	return b
 }
 
 var jwsPayloads = [][]byte{
@@ -1118,6 +1127,57 @@ func jwsReplay(args []string) {
 
 		_, verr := jwsutil.VerifyJWS(good, mod)
 		instances++
+
+		// the other reader of Ed25519 JWKs: a document key of the Ed25519 suites held as JWK is converted when the document
+		// is resolved - the key as it is, or no resolution at all for a JWK that is no Ed25519 key
+		if c.Kt == "ed" && c.Mod != "x_short_shadowed" {
+			for _, suite := range []string{"Ed25519VerificationKey2018", "Ed25519VerificationKey2020"} {
+				var jm map[string]interface{}
+
+				_ = json.Unmarshal(raw0(mod), &jm)
+				doc := document.Document{"publicKey": []interface{}{map[string]interface{}{"id": "key-1", "type": suite, "purposes": []interface{}{"authentication"}, "publicKeyJwk": jm}}}
+
+				var (
+					res  *document.ResolutionResult
+					terr error
+				)
+
+				func() {
+					defer func() {
+						if r := recover(); r != nil {
+							terr = fmt.Errorf("panic: %v", r)
+						}
+					}()
+
+					res, terr = didtransformer.New().TransformDocument(&protocol.ResolutionModel{Doc: doc}, protocol.TransformationInfo{"id": "did:sidetree:abc", "published": true})
+				}()
+
+				if jc.Expected.Ok {
+					want := ""
+					if terr == nil {
+						gd, _ := generic(res.Document).(map[string]interface{})
+						vm, _ := gd["verificationMethod"].([]interface{})
+						if len(vm) == 1 {
+							m, _ := vm[0].(map[string]interface{})
+							want, _ = m["publicKeyBase58"].(string)
+
+							if suite == "Ed25519VerificationKey2020" {
+								mb, _ := m["publicKeyMultibase"].(string)
+								want = strings.TrimPrefix(mb, "z")
+							}
+						}
+					}
+
+					if terr != nil || want != refBase58([]byte(key.Pub.(ed25519.PublicKey))) {
+						fail("jwk-round-trip", "resolved as "+suite+": "+fmt.Sprint(terr), refBase58([]byte(key.Pub.(ed25519.PublicKey))), want, string(raw))
+						return
+					}
+				} else if terr == nil {
+					fail("modified-jwk-accepted", "a document key of type "+suite+" with this JWK is resolved", "rejected", generic(res.Document), string(raw))
+					return
+				}
+			}
+		}
 
 		if jc.Expected.Ok {
 			if uerr != nil || !sameKey || verr != nil {
